@@ -19,7 +19,8 @@
 // Don't-care zones (the statement is silent, the model follows the object):
 //   * which free sub-automation of a slot createBinding picks
 //   * a learn request made by createBinding on a slot without a free sub-automation, or on a slot that is
-//     bound to an NRPN controller only (queued or ignored, whatever the object does)
+//     already bound to a controller (queued or ignored, whatever the object does; if such a slot is served
+//     the new controller replaces the old one of the same kind)
 //   * order of the messages of one setSlot call (matched to the slot's bindings by address)
 //   * the value sent on the very CC that gets learned, the return value of handleMidi
 //   * the value a toggle takes at exactly v == 0.5, rounding direction of integer parameters at .5
@@ -284,12 +285,19 @@ struct Sys {
     }
 
     // controller event (CC or complete NRPN sequence) already executed on the object; map = the model's controller table entry
-    static void controller_event(Inst &I, bool check, int &entry, double x, const char *site)
+    static void controller_event(Inst &I, bool check, int *map, int nmap, int c, double x, const char *site)
     {
+        int &entry = map[c];
         std::string shape = std::string(entry >= 0 ? "bound-controller" : "unbound-controller") + (I.q.empty() ? ",queue-empty" : ",queue-nonempty");
         int driven = -1; bool learned = false;
         if(entry >= 0) driven = entry;
-        else if(!I.q.empty()) { driven = I.q.front(); I.q.pop_front(); entry = driven; learned = true; }
+        else if(!I.q.empty()) {
+            driven = I.q.front(); I.q.pop_front(); learned = true;
+            // don't care: a slot that was already bound to a controller of this kind and was allowed to learn again
+            // (see createBinding) is re-bound: the new controller replaces the old one
+            for(int k = 0; k < nmap; ++k) if(map[k] == driven) { map[k] = -1; if(check) vp::outcome(std::string("dontcare:relearn-replaces-controller:") + site); }
+            entry = driven;
+        }
         if(!verify_fields(I, check, site, shape)) return;
         if(driven < 0) { no_drive(I, check, site); if(check) vp::outcome(std::string(site) + ":" + shape + ":ignored"); return; }
         if(learned) {
@@ -361,11 +369,12 @@ struct Sys {
                 return;
             }
             if(nfree) { MSub &ms = I.sub[s][fresh[0]]; ms.used = true; ms.port = p; ms.gain = 0; ms.off = 0; }
-            if(learn && !I.waiting(s) && !I.cc_bound(s)) {
-                if(nfree == 0 || I.nrpn_bound(s)) {
+            if(learn && !I.waiting(s)) {
+                if(nfree == 0 || I.cc_bound(s) || I.nrpn_bound(s)) {
+                    // don't care: the request may be queued or ignored, whatever the object does
                     bool queued = m.slots[s].learning == (int)I.q.size() + 1;
                     if(queued) I.q.push_back(s);
-                    if(check) vp::outcome(std::string("dontcare:learn-request-on-") + (nfree == 0 ? "full-slot" : "nrpn-bound-slot") + (queued ? ":queued" : ":ignored"));
+                    if(check) vp::outcome(std::string("dontcare:learn-request-on-") + (nfree == 0 ? "full-slot" : I.cc_bound(s) ? "cc-bound-slot" : "nrpn-bound-slot") + (queued ? ":queued" : ":ignored"));
                 } else I.q.push_back(s);
             }
             if(!verify_fields(I, check, "createBinding", shape)) return;
@@ -409,7 +418,7 @@ struct Sys {
         if(op < OP_NRPN) {
             int k = op - OP_MIDI, c = k / 3, v = CCVAL[k % 3];
             m.handleMidi(0, CCID[c], v);
-            controller_event(I, check, I.ccmap[c], v / 127.0, "handleMidi-cc");
+            controller_event(I, check, I.ccmap, 3, c, v / 127.0, "handleMidi-cc");
             return;
         }
         if(op < OP_SWEEP) {
@@ -418,7 +427,7 @@ struct Sys {
             m.handleMidi(0, C_nrpnlo, NRPN_ID[c][1]);
             m.handleMidi(0, C_dataentryhi, v[0]);
             m.handleMidi(0, C_dataentrylo, v[1]);
-            controller_event(I, check, I.nrpnmap[c], (v[0] * 128 + v[1]) / 16383.0, "nrpn-sequence");
+            controller_event(I, check, I.nrpnmap, 2, c, (v[0] * 128 + v[1]) / 16383.0, "nrpn-sequence");
             return;
         }
         if(check && op - OP_SWEEP < I.S) sweep(I, op - OP_SWEEP);
@@ -428,8 +437,15 @@ struct Sys {
     // Left out on purpose: slot.current_state (written by setSlot, read only by getSlot, which the harness calls
     // right after the write), slot.name, the NRPN scratch registers (the alphabet only sends complete sequences,
     // whose first two messages overwrite all four registers before any of them is decisive), impl/instance/p (pointers).
-    static void put(std::string &s, long v) { char b[24]; int n = snprintf(b, sizeof b, "%ld ", v); s.append(b, n); }
-    static void putf(std::string &s, float f) { uint32_t u; memcpy(&u, &f, 4); char b[12]; int n = snprintf(b, sizeof b, "%x ", u); s.append(b, n); }
+    // fast appenders (snprintf dominated the profile): hex digits of the two's complement value, blank terminated
+    static void put(std::string &s, long v)
+    {
+        char b[20]; int n = 0; unsigned long u = (unsigned long)v & 0xffffffffUL;
+        do { b[n++] = "0123456789abcdef"[u & 15]; u >>= 4; } while(u);
+        b[n++] = ' ';
+        s.append(b, n);
+    }
+    static void putf(std::string &s, float f) { uint32_t u; memcpy(&u, &f, 4); put(s, (long)u); }
     static std::string canon(const Inst &I)
     {
         if(!I.m) return "unconfigured";
@@ -474,6 +490,8 @@ int main(int argc, char **argv)
     for(int c = 0; c < NCFG; ++c) {
         int d = T ? CFG[c].dt : CFG[c].dq;
         if(d == 0) continue;
+        if(const char *only = getenv("C19_ONLY_CFG")) { if(atoi(only) != c) continue; vp::cap("development filter C19_ONLY_CFG set: other configurations skipped"); }
+        if(const char *dd = getenv("C19_DEPTH")) d = atoi(dd);
         char name[64]; snprintf(name, sizeof name, "config(slots=%d,per_slot=%d,fill=%02x)", CFG[c].S, CFG[c].P, CFG[c].fill);
         if(vp::deadline_passed()) { vp::cap(std::string("deadline before ") + name); break; }
         g_only_cfg = c;
